@@ -155,7 +155,7 @@ def monitor(nsrc, ndest, evenly, maxc, src, dest, conns, res, out):
 
 def run(out, info, tier, seed):
     out.checker_cmd = 'make -C coq && coqc -Q coq MV coq/Props/C18.v'
-    out.trusted_base = common.COMMON_TRUSTED + ['modelled by hand: util._connect_evenly/_connect_randomly/connect_many_to_one (Ext/Util.v); random.shuffle/randint are an oracle argument']
+    out.trusted_base = common.COMMON_TRUSTED + ['regenerated from the source and tied to the model (harness/py2coq_bulk.py, Ext/BulkTie.v): util.connect_randomly/_connect_evenly/_connect_randomly/connect_many_to_one; random.shuffle/randint are an oracle argument; entities are numbers (Entity hashing and equality are exercised by the real-World family only)']
     obl, log, broken = common.check_props_file('C18', info)
     for o in obl: out.add_obligation(o['name'], o['ok'], o['assumptions'])
     bad = common.hygiene()
